@@ -464,7 +464,7 @@ def h_run(ctx):
             raise
         except Exception as ex:  # pylint: disable=broad-except
             outcome = "error:" + type(ex).__name__
-            ctx.log("error-text", str(ex)[:200])
+            ctx.log("error-text", type(ex).__name__)
     ctx.log("outcome", outcome)
     ctx.log("updates", [n for n, _ in mon.updates])
     ctx.log("update_times", [t for _, t in mon.updates])
